@@ -139,7 +139,16 @@ def check(ctx):
 
 
 def _self_norm(c):
-    """Normalise `self.key.as_bytes()`-style sources so that writer and sizer expressions compare equal."""
+    """Strip value-preserving conversions (checked narrowing `try_into().unwrap()`, into/from) so that the writer's and
+    the sizer's expressions for the same quantity compare equal in every feature configuration."""
+    if c[0] == "call" and len(c[2]) == 1 and c[1].rsplit("::", 1)[-1] in ("unwrap", "try_into", "into", "from", "try_from", "expect"):
+        return _self_norm(c[2][0])
+    if c[0] == "call":
+        return ("call", c[1], tuple(_self_norm(a) for a in c[2]), c[3])
+    if c[0] == "bin":
+        return ("bin", c[1], _self_norm(c[2]), _self_norm(c[3]))
+    if c[0] in ("len", "un"):
+        return c[:-1] + (_self_norm(c[-1]),)
     return c
 
 
